@@ -124,27 +124,78 @@ def cases(tier, seed):
     for np_ in ([2, 3, 4, 5, 6, 8] if quick else [2, 3, 4, 5, 6, 7, 8]):
         for K in (0, 1, 2, 3):
             for bs in (1, 2):
-                for _ in range(3 if quick else 10):
+                # block_size >= 2 with nullspace.cols >= 2 runs into the known finding C12-pmis-nullspace-block-columns
+                # (heap corruption); each such case needs its own mpirun, so only a few of them are generated
+                if bs >= 2 and K >= 2: reps = (1 if K == 2 + np_ % 2 else 0) if quick else 2
+                else: reps = 3 if quick else 10
+                for _ in range(reps):
                     n, M, p, B = ns_system(r, np_, K, bs)
                     eps = r.choice(["2/25", "2/25", "1/4", "1/8", "0"])
                     add(np_, "pmis", "eps_strong=%s block_size=%d" % (eps, bs), "--", fmt_crs(n, n, M), fmt_ivec(p), K, fmt_vec(B))
         for K in (1, 2, 3):
             for c in COARSENINGS:
-                for _ in range(2 if quick else 6):
-                    bs = r.choice([1, 1, 2])
+                # (block_size, repartitioning, deep hierarchy).  Clean configurations: one near-null-space vector with any
+                # depth; two or three vectors with ONE coarsening step (max_levels = 2).  The others run into the known
+                # findings C12-mpi-amg-nullspace-not-repartitioned / C12-mpi-coarsening-nullspace-blocks (own mpirun each,
+                # a few of them only).
+                if K == 1:
+                    variants = [(1, False, True)] * (2 if quick else 5)
+                    known = [(1, True, True), (2, False, True)]
+                else:
+                    variants = [(1, False, False)] * (2 if quick else 5) + [(1, True, False)]
+                    known = [(1, False, True)]
+                if quick: known = [v for i, v in enumerate(known) if (np_ + K + i + (c == "aggregation")) % 3 == 0]
+                for bs, repart, deep in variants + known:
                     n, M, p, B = ns_system(r, np_, K, bs)
                     pre = "precond."
                     cfg = ["precond.class=amg", pre + "coarsening.type=" + c, pre + "relax.type=" + r.choice(["spai0", "damped_jacobi", "ilu0"]),
-                           pre + "coarse_enough=%d" % r.choice([1, 2, 4]), pre + "direct_coarse=true",
-                           pre + "repart.enable=%s" % r.choice(["false", "false", "true"]), pre + "repart.shrink_ratio=%d" % r.choice([2, 8]),
-                           pre + "coarsening.aggr.eps_strong=%s" % r.choice(["2/25", "1/8", "0"]),
+                           pre + "coarse_enough=%d" % r.choice([K, K + 1, 2 * K, 4]), pre + "direct_coarse=true",
+                           pre + "repart.enable=%s" % ("true" if repart else "false"), pre + "repart.shrink_ratio=%d" % r.choice([2, 8]),
+                           pre + "coarsening.aggr.eps_strong=%s" % r.choice(["0.08", "0.125", "0"]),      # decimal: parsed by the property tree
                            pre + "coarsening.aggr.block_size=%d" % bs]
+                    if not deep: cfg.append(pre + "max_levels=2")
                     if c == "aggregation": cfg.append(pre + "coarsening.over_interp=%d" % r.choice([1, 2]))
                     cfg += ["ns.cols=%d" % K, "ns.B=" + ",".join(fmt_q(v) for v in B)]
                     cfg += ["solver.type=" + r.choice(["cg", "bicgstab", "gmres"]), "solver.tol=" + TOL, "solver.maxiter=%d" % MAXITER]
                     f = [F(r.randint(-4, 4), r.choice([1, 2])) for _ in range(n)]
                     if all(v == 0 for v in f): f[0] = F(1)
                     add(np_, "solve", " ".join(cfg), "--", fmt_crs(n, n, M), fmt_ivec(p), fmt_vec(f), fmt_vec([F(0)] * n), 1)
+    # ---- PMIS model tie (Pmis.v): pattern graphs x contiguous partitions, exhaustive for small n
+    import itertools
+    def graph_case(np_, n, edges, p, eps="0", w=None):
+        rows = [dict() for _ in range(n)]
+        for (a, b) in edges: rows[a][b] = -(w[(a, b)] if w else F(1))
+        for a in range(n): rows[a][a] = F(4)
+        add(np_, "pmis", "eps_strong=%s block_size=1" % eps, "--", fmt_crs(n, n, [sorted(rw.items()) for rw in rows]), fmt_ivec(p), 0, fmt_vec([]))
+    def all_parts(n, np_): return [list(c) for c in gen.compositions(n, np_)]
+    for n in ((1, 2, 3, 4) if quick else (1, 2, 3, 4, 5)):
+        und = [(a, b) for a in range(n) for b in range(a + 1, n)]
+        graphs = [[e for e, bit in zip(und, bits) if bit] for bits in itertools.product([0, 1], repeat=len(und))]
+        if n == 5: graphs = r.sample(graphs, 300)
+        for g in graphs:
+            sym = g + [(b, a) for a, b in g]
+            for np_ in (1, 2, 3, 4):
+                for p in all_parts(n, np_): graph_case(np_, n, sym, p)
+    # directed patterns (structurally non-symmetric strength matrix): exhaustive for n <= 3, sampled above
+    for n in (2, 3):
+        dire = [(a, b) for a in range(n) for b in range(n) if a != b]
+        for bits in itertools.product([0, 1], repeat=len(dire)):
+            g = [e for e, bit in zip(dire, bits) if bit]
+            if all((b, a) in g for a, b in g): continue
+            for np_ in (2, 3, 4):
+                for p in all_parts(n, np_): graph_case(np_, n, g, p)
+    for _ in range(300 if quick else 3000):
+        n = r.randint(4, 7 if quick else 12); np_ = r.randint(2, 4 if quick else 8)
+        dens = r.choice([0.2, 0.35, 0.5])
+        g = [(a, b) for a in range(n) for b in range(n) if a != b and r.random() < dens]
+        if r.random() < 0.5: g = sorted(set(g + [(b, a) for a, b in g]))
+        graph_case(np_, n, g, gen.rcomposition(r, n, np_, empty_bias=0.15))
+    # larger random symmetric graphs with weights and a non-trivial threshold
+    for _ in range(60 if quick else 600):
+        np_ = r.choice([2, 3, 4] if quick else [2, 3, 4, 5, 6, 8]); n = r.randint(8, 40)
+        M = gen.dyadic_spd(r, n)
+        add(np_, "pmis", "eps_strong=%s block_size=1" % r.choice(["2/25", "1/4", "1/2", "0"]), "--", fmt_crs(n, n, M),
+            fmt_ivec(gen.rcomposition(r, n, np_, empty_bias=0.15)), 0, fmt_vec([]))
     return out
 
 
@@ -262,7 +313,13 @@ class Cfg:
 def check_solve(line, out, np_, olines, fails, ctx):
     """structural checks in python; exact checks become oracle lines for the extracted Coq spec"""
     c = Cfg(line)
+    # an aggregate of the first coarsening step with fewer unknowns than near-null-space vectors (seen by the probe run of
+    # the aggregation; known finding small-aggregates: rank-deficient P, singular coarse operator) is recorded with every
+    # failure of the case
+    small = [bool(ctx.get("c12_small", {}).get(c.cid))]
+    if small[0]: ns_stat(ctx, "ns_solve_cases_with_aggregate_smaller_than_cols")
     def fail(what, **kw):
+        if small[0]: kw["small_aggregate"] = True
         fails.append(dict(kind="counterexample", case=line, impl=(out or "")[:4000], model=None, op=c.op, size=len(line), np=np_,
                           oracle=dict(op=what, **kw), theorem="C12 %s (%d ranks)" % (what, np_)))
     if out is None or out.startswith("CRASH"):
@@ -362,7 +419,7 @@ def check_solve(line, out, np_, olines, fails, ctx):
                                "%s.is o.isolated %s %s %s" % (base, tok["A"], tok["P"], fmt_q(eps * eps))))
             else:
                 olines.append(("the unknowns of one point are in the same aggregate",
-                               "%s.br o.blockrows %d %d %s" % (base, max(K, 1), bs, tok["P"])))
+                               "%s.br o.blockrows %d %d %s" % (base, K or bs, bs, tok["P"])))
         if "C" in L:
             if coarsening == "aggregation" and not K:
                 sc = F(1) / F(c.kv.get("precond.coarsening.over_interp", "3/2")); tol = F(0)
@@ -378,6 +435,51 @@ def check_solve(line, out, np_, olines, fails, ctx):
                                "%s.nx o.same %s %s" % (base, tok["C"], crs_tok(*levels[li + 1]["A"]))))
 
 def sorted_rows(rows): return [sorted(rw) for rw in rows]
+
+
+def ns_config(line):
+    """(block_size, nullspace.cols) of a pmis / solve case"""
+    head = line.split(" -- ", 1)[0]
+    m = re.search(r"block_size=(\d+)", head); bs = int(m.group(1)) if m else 1
+    m = re.search(r"ns\.cols=(\d+)", head)
+    if m: return bs, int(m.group(1))
+    if line.split(" ", 2)[1] == "pmis":
+        try: return bs, Cfg(line).K
+        except Exception: return bs, 0
+    return bs, 0
+
+def known_config(line):
+    """configurations of the known findings about the near-null space in the distributed coarsening:
+       block-columns      cols * (block_size - 1) >= block_size: the column index `null_cols * s / block_size` of
+                          pmis::tentative_prolongation is wrong for the second, ... unknown of a point;
+       coarse-block_size  solve with >= 2 coarsening steps, block_size >= 2: the mpi coarsenings keep aggr.block_size on the
+                          coarse levels although the coarse unknowns come in blocks of nullspace.cols
+                          (assert "Matrix size should be divisible by block_size" / points cut through the blocks);
+       small-aggregates   solve with cols >= 2: the distributed aggregation has no counterpart of the serial
+                          remove_small_aggregates(min_aggregate = nullspace.cols); an aggregate with fewer unknowns than
+                          near-null-space vectors (regularly from the second coarsening step on, where block_size = 1
+                          aggregates cut through the cols-blocks of the coarse unknowns) makes QR::R read out of bounds and
+                          P rank-deficient, the coarse operator singular;
+       not-repartitioned  solve with >= 2 coarsening steps and repartitioning: mpi::amg moves the rows of the coarse
+                          matrix to other ranks but leaves the coarse near-null space where it was.
+    Returns (kind, deep): deep = the hierarchy may have a second coarsening step (no max_levels=2)."""
+    op = line.split(" ", 2)[1]
+    if op not in ("pmis", "solve"): return None
+    bs, K = ns_config(line)
+    if K == 0: return None
+    if bs >= 2 and K * (bs - 1) >= bs: return ("block-columns", True)
+    head = line.split(" -- ", 1)[0]
+    if op == "solve":
+        deep = "precond.max_levels=2" not in head
+        if bs >= 2: return ("coarse-block_size", deep) if deep else None
+        if K >= 2: return ("small-aggregates", deep)
+        if "precond.repart.enable=true" in head and deep: return ("not-repartitioned", deep)
+    return None
+
+def fragile(line):
+    """configurations that regularly run into a known finding which corrupts memory / hangs: own mpirun each"""
+    kc = known_config(line)
+    return kc is not None and kc[1]
 
 
 def owner_neighbours(P, parts, na):
@@ -424,6 +526,11 @@ def check_pmis(line, out, np_, olines, fails, ctx):
         return fail("every rank holds the coarse near-null space of its own aggregates", got=na)
     # evidence: how many cases had an aggregate owner with members from >= 2 (>= 3) other ranks
     mx = owner_neighbours(P, c.parts, na)
+    if K >= 2:
+        cnt = {}
+        for rw in P[2]:
+            if rw: cnt[rw[0][0] // K] = cnt.get(rw[0][0] // K, 0) + 1
+        if any(v < K for v in cnt.values()): ns_stat(ctx, "pmis_cases_with_aggregate_smaller_than_cols")
     if K >= 2 and mx >= 2: ns_stat(ctx, "ns_cases_cols>=2_owner_with>=2_contributing_ranks")
     if K >= 2 and mx >= 3: ns_stat(ctx, "ns_cases_cols>=2_owner_with>=3_contributing_ranks")
     if mx >= 2: ns_stat(ctx, "pmis_cases_owner_with>=2_contributing_ranks")
@@ -439,12 +546,29 @@ def check_pmis(line, out, np_, olines, fails, ctx):
     else:
         olines.append(("aggregates partition the unknowns (no empty aggregate, one unit entry per aggregated row)",
                        "%s.pa o.partition %s" % (c.cid, tokP)))
-    if bs == 1:
+    symmetric = all((i, v) in dict.fromkeys(c.rows[j]) for i, rw in enumerate(c.rows) for j, v in rw)
+    if bs == 1 and K == 0:
+        # C12-B: the PMIS model of Pmis.v (extracted) must give the same aggregate of every unknown, the same
+        # number of aggregates on every rank and the same strength pattern
+        eps2 = F(float(eps) * float(eps))               # eps_strong * eps_strong as computed at double
+        want = "na=[%s] col=[%s] conn={%d %d%s}" % (" ".join(str(a) for a in na),
+                " ".join(str(rw[0][0]) if rw else "-1" for rw in P[2]), S[0], S[1],
+                "".join(" |" + "".join(" %d" % col for col, _ in sorted(rw)) for rw in S[2]))
+        ctx.setdefault("c12_model", []).append((c.cid, "%s.m m.pmis %s %s %s" % (c.cid, tokA, fmt_ivec(c.parts), fmt_q(eps2)), want, line, out))
+    if bs == 1 and symmetric:
         olines.append(("every non-isolated unknown is aggregated, every isolated one is left out",
                        "%s.is o.isolated %s %s %s" % (c.cid, tokA, tokP, fmt_q(eps * eps))))
+    elif bs == 1:
+        # structurally non-symmetric strength: an unknown without outgoing strong connection may still be taken by a
+        # neighbouring root; only "strong connection => aggregated" is demanded
+        ctx["stats"]["oracle_checks"] += 1
+        dia = [dict(rw).get(i, F(0)) for i, rw in enumerate(c.rows)]
+        for i, rw in enumerate(c.rows):
+            if any(j != i and eps * eps * dia[i] * dia[j] < v * v for j, v in rw) and not P[2][i]:
+                fail("every non-isolated unknown is aggregated", row=i); break
     else:
         olines.append(("the unknowns of one point are in the same aggregate",
-                       "%s.br o.blockrows %d %d %s" % (c.cid, max(K, 1), bs, tokP)))
+                       "%s.br o.blockrows %d %d %s" % (c.cid, K or bs, bs, tokP)))
         # a point is left out exactly when its rows have no strong connection (pattern of pmis::conn) to another point
         ctx["stats"]["oracle_checks"] += 1
         for ip in range(c.n // bs):
@@ -474,22 +598,69 @@ def check_direct(line, out, np_, olines, fails, ctx):
                    "%s.d o.solves %s %s %s %s" % (c.cid, c.A, fmt_vec(c.f), fmt_vec(x1), fmt_q(scale / 10**9))))
 
 
+def probe_of(line):
+    """solve case with >= 2 near-null-space vectors -> the `pmis` case with the same matrix, partition, near-null space and
+    strength threshold: the aggregation of the FIRST coarsening step, run on its own.  Tells (from the implementation's
+    own P_tent) whether an aggregate has fewer unknowns than near-null-space vectors (known finding small-aggregates)
+    before the solve case is run -- that one may hang when the coarse operator is singular."""
+    if line.split(" ", 2)[1] != "solve": return None
+    bs, K = ns_config(line)
+    if K < 2 or bs != 1: return None
+    c = Cfg(line)
+    eps = fmt_q(F(c.kv.get("precond.coarsening.aggr.eps_strong", "0.08")))
+    return "%sq pmis eps_strong=%s block_size=1 -- %s %s %d %s" % (c.cid, eps, c.A, fmt_ivec(c.parts), K, fmt_vec(c.B))
+
+def has_small_aggregate(out, K):
+    """from the report of a pmis case: is there an aggregate with fewer rows than K (None: no usable report)"""
+    try:
+        ms = [PMIS_RE.match(p) for p in out.split(" ; ")]
+        P = assemble([m.group(2) for m in ms])
+        cnt = {}
+        for rw in P[2]:
+            if rw: cnt[rw[0][0] // K] = cnt.get(rw[0][0] // K, 0) + 1
+        return any(v < K for v in cnt.values())
+    except Exception:
+        return None
+
+
 def run(ctx, cases_override=None):
     import threading
-    lines = cases_override or cases(ctx["tier"], ctx["seed"])
+    lines = list(cases_override or cases(ctx["tier"], ctx["seed"]))
+    lines += [q for q in (probe_of(l) for l in lines) if q]
     fails = []
     groups = {}
     for l in lines: groups.setdefault(np_of(l), []).append(l)
     by_id = {l.split(" ", 1)[0]: l for l in lines}
+    small = ctx.setdefault("c12_small", {})
+    frag = {}
     # the rank-count groups run concurrently (each: a few mpirun shards, every one under timeout)
     impls = {}
     def work(np_):
-        ls = groups[np_]
-        shards = max(1, min(3 if np_ <= 4 else 1, len(ls) // 8))
-        impls[np_] = run_mpi(ctx, ctx["cpp"]["mpi_solve"], ls, np_, MPIRUN, shards=shards, timeout=TIMEOUT,
-                             env={"OMP_NUM_THREADS": "1"})
+        exe = ctx["cpp"]["mpi_solve"]; env = {"OMP_NUM_THREADS": "1"}
+        def go(ls):
+            if not ls: return
+            shards = max(1, min(3 if np_ <= 4 else 1, len(ls) // 8))
+            impls[np_].update(run_mpi(ctx, exe, ls, np_, MPIRUN, shards=shards, timeout=TIMEOUT, env=env))
+        def go_single(ls):
+            # cases that run into a known finding which corrupts the heap / hangs: one mpirun each, so that a crash cannot
+            # take other cases with it; short timeout, no retry
+            if ls: impls[np_].update(run_mpi(ctx, exe, ls, np_, MPIRUN, shards=len(ls), timeout=10, env=env, retries=0))
+        impls[np_] = {}
+        is_pmis = lambda l: l.split(" ", 2)[1] == "pmis"
+        # phase 1: the aggregation on its own (incl. the probes of the solve cases)
+        go([l for l in groups[np_] if is_pmis(l) and not fragile(l)])
+        go_single([l for l in groups[np_] if is_pmis(l) and fragile(l)])
+        for l in groups[np_]:
+            cid = l.split(" ", 1)[0]
+            if is_pmis(l) and cid.endswith("q"): small[cid[:-1]] = has_small_aggregate(impls[np_].get(cid) or "", ns_config(l)[1])
+        # phase 2: everything else; fragile = configuration of a known finding, or a small aggregate seen by the probe
+        fr = set(l.split(" ", 1)[0] for l in groups[np_] if not is_pmis(l) and (fragile(l) or small.get(l.split(" ", 1)[0])))
+        frag[np_] = fr | set(l.split(" ", 1)[0] for l in groups[np_] if is_pmis(l) and fragile(l))
+        go([l for l in groups[np_] if not is_pmis(l) and l.split(" ", 1)[0] not in fr])
+        go_single([l for l in groups[np_] if not is_pmis(l) and l.split(" ", 1)[0] in fr])
     order = sorted(groups)
     batches = [[n for n in order if n <= 4], [n for n in order if 4 < n <= 6], [n for n in order if n > 6]]
+    if sum(len(groups[n]) for n in order if n > 4) < 300: batches = [batches[0], batches[1] + batches[2]]
     for batch in batches:
         ths = [threading.Thread(target=work, args=(n,)) for n in batch]
         for t in ths: t.start()
@@ -497,12 +668,13 @@ def run(ctx, cases_override=None):
     for np_ in order:
         ls = groups[np_]; impl = impls[np_]
         account(ctx, ls, impl, nontrivial=lambda op, p, o: bool(o) and not o.startswith(("CRASH", "EXC")) and "EXC" not in o)
-        crashed = any((v or "").startswith("CRASH") for v in impl.values())
+        frag_ids = frag[np_]
+        crashed = any((v or "").startswith("CRASH") for k, v in impl.items() if k not in frag_ids)
         olines = []
         for l in ls:
             cid, op = l.split(" ", 2)[:2]
             o = impl.get(cid)
-            if o is None and crashed: continue           # not run: an earlier case of its shard hung / crashed
+            if o is None and crashed and cid not in frag_ids: continue   # not run: an earlier case of its shard hung / crashed
             try:
                 {"solve": check_solve, "pmis": check_pmis, "direct": check_direct}[op](l, o, np_, olines, fails, ctx)
             except Exception as e:
@@ -523,12 +695,44 @@ def run(ctx, cases_override=None):
             x["size"] = len(x["case"])
             x["impl"] = (impl.get(cid) or "")[:3000]
         fails += f2
+        # third stage: the extracted PMIS model on the same inputs
+        ml = ctx.pop("c12_model", [])
+        if ml:
+            res = ctx["run_driver"](ctx["model"], [m[1] for m in ml])
+            for cid, mline, want, l, o in ml:
+                ctx["stats"]["oracle_checks"] += 1
+                got = res.get(cid + ".m")
+                if got != want:
+                    ctx["stats"]["mismatches"] += 1
+                    fails.append(dict(kind="counterexample", case=l, impl=want[:3000], model=(got or "")[:3000], op="pmis", size=len(l), np=np_,
+                                      oracle=dict(op="PMIS model (Pmis.v) = implementation: aggregates, counts, strength pattern"),
+                                      theorem="C12-B PMIS model vs pmis.hpp (%d ranks)" % np_))
     return fails
 
 
+KNOWN_SITES = {
+    "block-columns":     dict(site="mpi-pmis-tentative_prolongation", defect="nullspace-column-index-with-block_size"),
+    "coarse-block_size": dict(site="mpi-coarsening", defect="block_size-kept-on-coarse-levels-with-nullspace"),
+    "small-aggregates":  dict(site="mpi-pmis", defect="aggregate-smaller-than-nullspace-cols"),
+    "not-repartitioned": dict(site="mpi-amg-step_down", defect="coarse-nullspace-not-repartitioned"),
+}
+RUN_LEVEL_CHECKS = ("terminates on all ranks", "no exception on any rank", "finite solution on every rank", "well-formed",
+                    "convergence on an SPD M-matrix")
+
+def fail_level(fail):
+    """level of the hierarchy a failed check is about (None: the run as a whole)"""
+    o = fail.get("oracle") or {}
+    if "level" in o: return o["level"]
+    m = re.match(r"^p\d+\.\d+\.l(\d+)\.", o.get("line") or "")
+    return int(m.group(1)) if m else None
+
 def classify(fail):
-    """known finding: mpi::relaxation::gauss_seidel sweeps over the local block only (amg smoother on >= 2 non-empty
-    ranks) -> convergence failures with that smoother, and only those, carry the signature"""
+    """known findings:
+    * mpi::relaxation::gauss_seidel sweeps over the local block only (amg smoother on >= 2 non-empty ranks) ->
+      convergence failures with that smoother, and only those;
+    * three defects of the near-null space handling (see known_config): in the configurations that reach them, a crash /
+      hang / non-finite or non-converged solve, and failed hierarchy checks -- for coarse-blocks and not-repartitioned only
+      those of the SECOND and later coarsening steps (the first one does not depend on the defect)"""
     o = fail.get("oracle") or {}
     try:
         if fail.get("op") == "solve" and o.get("op") == "convergence on an SPD M-matrix":
@@ -536,6 +740,17 @@ def classify(fail):
             if (c.kv.get("precond.class") == "amg" and c.kv.get("precond.relax.type") == "gauss_seidel"
                     and sum(1 for p in c.parts if p > 0) >= 2):
                 return dict(site="mpi-relaxation-gauss_seidel", defect="smoother-ignores-remote-part", check="convergence")
+        kc = known_config(fail.get("case") or "x x")
+        if kc:
+            kind, deep = kc
+            what = o.get("op") or ""
+            lvl = fail_level(fail)
+            runlevel = lvl is None and what.startswith(RUN_LEVEL_CHECKS)
+            if kind == "small-aggregates" and not deep:
+                # one coarsening step only: known only if the implementation's own P_tent shows such an aggregate
+                if runlevel and o.get("small_aggregate"): return dict(KNOWN_SITES[kind], check="run")
+            elif kind == "block-columns" or runlevel or (lvl is not None and lvl >= 1):
+                return dict(KNOWN_SITES[kind], check="run" if runlevel else "hierarchy")
     except Exception:
         pass
     return {}
